@@ -15,7 +15,8 @@
 (* exclusion; at most MaxProbes per behaviour.                                      *)
 EXTENDS Subscriptions, Json
 
-CONSTANTS MaxProbes,  \* releases of an actor that will block immediately
+CONSTANTS AllowCloseSub, \* the source may call updater.CloseSubscription
+          MaxProbes,  \* releases of an actor that will block immediately
           SeqSetup    \* TRUE: all subscribers are added and their triggers started one after the other before anything else happens
 
 VARIABLES rel,    \* Actors -> BOOLEAN : released and not yet parked again (running or blocked)
@@ -25,19 +26,21 @@ VARIABLES rel,    \* Actors -> BOOLEAN : released and not yet parked again (runn
 gvars == <<vars, rel, pend, hist, nprobe>>
 
 IdlePCs == {"c.idle0", "c.idle1", "s.idle", "s.idle2", "env"}
-ParkPCs == {"td.close", "co.chk", "er.chk", "hb.chk", "g.werr", "u.begin", "g.begin", "g.found", "dt.begin", "sh.begin", "u.flushing"}
+ParkPCs == {"u.fetch", "td.close", "co.chk", "er.chk", "hb.chk", "g.werr", "u.begin", "g.begin", "g.found", "dt.begin", "sh.begin", "u.flushing"}
 \* (with FixInit the trig.init.found point sits inside r.mu: the start goroutine then parks holding the lock and every
 \*  release of an actor that needs r.mu meanwhile is a probe)
 ParksAt(a, pc) == pc \in IdlePCs \/ pc \in ParkPCs \/ (pc = "un.begin" /\ a[1] # "c")
 EndPCs == {"none", "c.end", "s.end", "u.end", "g.end", "sh.end", "env.end"}
 
 Code(ch) == CASE ch = "sub" -> 1 [] ch = "unsub" -> 2 [] ch = "rmclient" -> 3 [] ch = "update" -> 4 [] ch = "complete" -> 5
-              [] ch = "error" -> 6 [] ch = "hb" -> 7 [] ch = "done" -> 8 [] ch = "shutdown" -> 9 [] ch = "final" -> 9 [] OTHER -> 0
+              [] ch = "error" -> 6 [] ch = "hb" -> 7 [] ch = "done" -> 8 [] ch = "shutdown" -> 9 [] ch = "final" -> 9 [] ch \in {"cs1", "cs2", "cs3"} -> 10 [] OTHER -> 0
+CsSub(ch) == CASE ch = "cs1" -> 1 [] ch = "cs2" -> 2 [] ch = "cs3" -> 3 [] OTHER -> 0
 
 Choices(a) ==
   CASE ac[a].pc = "c.idle0" -> {"sub"}
     [] ac[a].pc = "c.idle1" -> {"unsub", "rmclient"}
-    [] ac[a].pc = "s.idle" -> IF a[1] = "s" THEN {"update", "complete", "error", "hb", "done"} ELSE {"update", "done"}
+    [] ac[a].pc = "s.idle" -> IF a[1] = "s" THEN {"update", "complete", "error", "hb", "done"} \cup {c \in {"cs1", "cs2", "cs3"} : CsSub(c) \in Subs}
+                              ELSE {"update", "done"}
     [] ac[a].pc = "s.idle2" -> {"done"}
     [] ac[a].pc = "env" -> {"shutdown", "final"}
     [] ac[a].pc = "u.flushing" -> {"ok", "err"}
@@ -55,6 +58,7 @@ ChoiceValid(a, ch) ==
   CASE ch = "sub" -> ~o.final
     [] ch \in {"unsub", "rmclient"} -> o.nterm < MaxTerm /\ ~o.final
     [] ch \in {"complete", "error"} -> o.nsterm < MaxSrcTerm /\ SrcReady(a)
+    [] ch \in {"cs1", "cs2", "cs3"} -> AllowCloseSub /\ o.nterm < MaxTerm /\ SrcReady(a) /\ CsSub(ch) \in g.isubs[Inst0(a)]
     [] ch = "update" -> SrcReady(a) /\ o.nev < MaxEvents
     [] ch = "hb" -> SrcReady(a) /\ o.nhb < MaxHB
     [] ch = "done" -> SrcReady(a) /\ (ac[a].pc = "s.idle2" \/ o.nsterm < MaxSrcTerm)
@@ -74,6 +78,7 @@ Release(a, ch) ==
 
 ChoiceOK(a) ==
   /\ (lab'.n = "h.cmd" => /\ lab'.x = Code(pend[a])
+                          /\ (lab'.x = 10 => lab'.z = CsSub(pend[a]))
                           /\ (a = ENV => lab'.y = IF pend[a] = "final" THEN 1 ELSE 0))
   /\ (lab'.n = "w.flush" => lab'.z = IF pend[a] = "err" THEN 0 ELSE 1)
   /\ (lab'.n = "w.hb" => lab'.y = IF pend[a] = "err" THEN 0 ELSE 1)
@@ -96,7 +101,7 @@ GenSpec == GenInit /\ [][GenNext]_gvars
 \* a complete behaviour: resolver shut down, everything at rest
 Done == Quiet /\ NobodyRuns
 Emit == IF Done
-        THEN PrintT(ToJson([key |-> cfg.key, filt |-> cfg.filt, conn |-> cfg.conn, start |-> cfg.start, steps |-> hist,
+        THEN PrintT(ToJson([key |-> cfg.key, filt |-> cfg.filt, conn |-> cfg.conn, start |-> cfg.start, fetch |-> cfg.fetch, steps |-> hist,
                             wdata |-> o.wdata, wafter |-> o.wafter # {}, stale |-> o.stale # {}, late |-> o.lateInit]))
         ELSE TRUE
 GenConstraint == Emit
@@ -106,17 +111,22 @@ StopAtDone == ~(Done /\ o.final)
 \* lab is the label of the incoming transition; history of the schedule is part of the state on purpose (every distinct schedule is a state)
 GenView == <<cfg, g, o, ac, rel, pend, hist, nprobe>>
 
+NoFetch(c) == c.fetch = [s \in Subs |-> FALSE]
 CfgAll(c) == TRUE
-CfgSame(c) == c.key = [s \in Subs |-> 1] /\ c.filt[1] = "all" /\ c.conn = [s \in Subs |-> s]
-CfgDiff(c) == c.key = [s \in Subs |-> s] /\ c.filt[1] = "all" /\ c.filt[2] = "all" /\ c.conn = [s \in Subs |-> 1]
-CfgNoFilt(c) == \A s \in Subs : c.filt[s] = "all"
-CfgRace(c) == c.filt[1] = "all" /\ (c.key[NS] = 1 => c.conn[NS] = NS) /\ (c.key[NS] # 1 => c.conn[NS] = 1 /\ c.filt[NS] = "all")
+\* both subscribers of one trigger resolve a nested fetch per event
+CfgFetch(c) == c.key = [s \in Subs |-> 1] /\ c.filt = [s \in Subs |-> "all"] /\ c.conn = [s \in Subs |-> s] /\ c.fetch = [s \in Subs |-> TRUE]
+CfgSame(c) == NoFetch(c) /\ c.key = [s \in Subs |-> 1] /\ c.filt[1] = "all" /\ c.conn = [s \in Subs |-> s]
+CfgDiff(c) == NoFetch(c) /\ c.key = [s \in Subs |-> s] /\ c.filt[1] = "all" /\ c.filt[2] = "all" /\ c.conn = [s \in Subs |-> 1]
+CfgNoFilt(c) == NoFetch(c) /\ \A s \in Subs : c.filt[s] = "all"
+CfgRace(c) == NoFetch(c) /\ c.filt[1] = "all" /\ (c.key[NS] = 1 => c.conn[NS] = NS) /\ (c.key[NS] # 1 => c.conn[NS] = 1 /\ c.filt[NS] = "all")
 \* without events the filters do not matter: one configuration per sharing shape
-CfgStart(c) == (\A s \in Subs : c.filt[s] = "all") /\ (c.key[NS] = 1 => c.conn[NS] = NS) /\ (c.key[NS] # 1 => c.conn[NS] = 1)
+CfgStart(c) == NoFetch(c) /\ (\A s \in Subs : c.filt[s] = "all") /\ (c.key[NS] = 1 => c.conn[NS] = NS) /\ (c.key[NS] # 1 => c.conn[NS] = 1)
 StartOK == {"ok"}
 StartOkCtx == {"ok", "ctx"}
+\* three subscriber slots (only sampled): no nested fetches, every sharing shape / filter / connection layout
+CfgThree(c) == NoFetch(c)
 StartCtx == {"ctx"}
 StartFail == {"fail"}
-CfgOne(c) == c.key = [s \in Subs |-> 1] /\ c.filt = [s \in Subs |-> "all"] /\ c.conn = [s \in Subs |-> s]
+CfgOne(c) == NoFetch(c) /\ c.key = [s \in Subs |-> 1] /\ c.filt = [s \in Subs |-> "all"] /\ c.conn = [s \in Subs |-> s]
 StartAll == {"ok", "fail", "ctx"}
 =============================================================================
